@@ -55,6 +55,7 @@ func runC04(p *core.Prog, r *core.Result) {
 		"R4.5/R4.6 wait loops re-test under lock, every writer of the waited-for state wakes the waiters on all exits",
 		"R4.7 Run returns wait() of the target obtained for the requested label",
 		"R4.11 a target continues past its dependency request only after every requested dependency has finished: every return of EvaluateTargets lies behind the loop that waits for each started target (the return taken when the cycle check fails does not - see the known finding: there every result, also of dependencies that are not on the cycle, carries the cyclic-dependency error and nothing is waited for; C05's rules R5.2/R5.6 depend on exactly that)",
+		"R4.12 no function of the build engine (packages dawn, runner) returns with a mutex it took still locked unless the release is deferred: the target table is consulted under Project.m by every lookup of a run, so a lock leaked on one exit (the unknown-target return) blocks every later lookup and the dependents of whatever is looked up afterwards never get an outcome",
 		"R4.10 EvaluateTargets answers positionally: the slice of targets it starts, checks and waits for holds getTarget(labels[i]) at index i for every i (or is appended to once per label, unconditionally, in order), and the results slice has len(labels) elements - so results[i] is the outcome of labels[i] even when a label is listed twice",
 		"R4.9 the loader the runner calls is injective on labels: (*Project).LoadTarget hands out the registry entry stored under the canonical string of exactly the label it was asked for - the runner deduplicates by label string, so a second lookup under another key (an alias, a default name) gives one target two runner entries and it executes twice",
 		"R4.8 the only outcome that lets a requester continue without waiting - the cyclic-dependency error - is constructed only where the walk over published waiting sets has come back to the requester's own target (a diamond or a repeated label is not a cycle)",
@@ -190,6 +191,7 @@ func runC04(p *core.Prog, r *core.Result) {
 	checkResultsWiring(p, r, a)
 	checkLabelsWiring(p, r, a, "R4.10")
 	checkReturnsAfterWaits(p, r, a, "R4.11")
+	checkLocksReleased(p, r, "R4.12")
 
 	// R4.5 / R4.6
 	waits := findWaits(p, r, "R4.5")
@@ -945,12 +947,14 @@ func runC05(p *core.Prog, r *core.Result) {
 		"R5.6 a request whose cycle check failed returns without waiting for anything (every wait() in EvaluateTargets is on the nil-error edge of the cycle check), so a detected cycle's edges are withdrawn and never walked again",
 		"R5.5 dependencies are awaited outside a slot (needed for termination at limit 1)",
 		"R5.7 slots are conserved: run takes one and gives it back on every exit (including a failed load), EvaluateTargets gives one back and retakes it on every exit; no other function moves slots - a leaked slot drains the pool and the build hangs on an acyclic graph",
+		"R5.8 the target whose request closed a cycle reports it: in (*runTarget).Evaluate nothing but tests of the error's type lies between the test of a dependency's error and the TargetFailed event that carries the CyclicDependencyError (the error is handed to that one target only; a further condition - the kind of the target, a flag - lets some cycles fail unreported)",
 	}
 	r.NotDecided = []string{"termination under every interleaving (needs schedule exploration or a model; in particular the recursion of check through a cycle not containing the root)", "that every cycle is reported"}
 	a := resolveRunner(p, r, "R5.0")
 	if a == nil {
 		return
 	}
+	checkCycleErrorReportedUnconditionally(p, r, "R5.8")
 	fn := a.evalTargets
 	// R5.1
 	var pub, clr ssa.CallInstruction
@@ -1243,6 +1247,7 @@ func runC09(p *core.Prog, r *core.Result) {
 		"R9.5 loading and evaluating a target happen inside a slot",
 		"R9.6 waiting on dependencies happens outside a slot",
 		"R9.7 the limit is runtime.NumCPU(), stored unmodified",
+		"R9.8 a target requests dependencies only from the goroutine that holds its slot: no goroutine started outside package runner reaches Engine.EvaluateTargets (two concurrent requests of one target give its one slot back twice, so one body more than the limit runs until the first request returns)",
 	}
 	r.NotDecided = []string{"the instantaneous bound as a property of schedules (follows from the above under Mutex/Cond semantics, which are trusted)"}
 	a := resolveRunner(p, r, "R9.0")
@@ -1251,6 +1256,7 @@ func runC09(p *core.Prog, r *core.Result) {
 	}
 	// R9.1 who may call + pairing
 	checkSlotPairing(p, r, a, "R9.1")
+	checkEngineNotFromGoroutines(p, r, "R9.8")
 
 	// R9.2
 	n := guarded(p, r, "R9.2", core.GuardSpec{Rel: "runner", Type: "gate", Field: "capacity", Lock: "m"})
